@@ -1,4 +1,5 @@
 """C16 -- the numeric bounds published in a specification are valid."""
+import copy
 import json
 import random
 import time
@@ -36,6 +37,12 @@ def specs_and_greedy(items, argv):
                 if k < len(subs) - 1:
                     seg = seg[:-1]
             g = run_greedy(S)
+            try:
+                from smt_encoding.json_with_dependencies import extended_json_with_instr_dep_and_bounds
+                ext = extended_json_with_instr_dep_and_bounds(copy.deepcopy(S))
+                g["lb"], g["ub"] = ext.get("lower_bounds"), ext.get("upper_bounds")
+            except Exception:
+                g["lb"] = g["ub"] = None
             g["segment"] = seg
             g["name"] = name
             out.append(g)
@@ -43,8 +50,57 @@ def specs_and_greedy(items, argv):
 
 
 def rule_key(rules):
-    names = sorted(set("EVAL" if x.startswith("EVAL") else ("useless-store" if "useless" in x else x) for x in rules))
+    def nm(x):
+        if x.startswith("EVAL"):
+            return "EVAL"
+        if "useless" in x:
+            return "useless-store"
+        if "=" in x and ("load" in x or "sha3" in x or "keccak" in x) and x.startswith("("):
+            return "load-forwarding"          # "((addr, 'sload0'), 1)= (addr, value, 'sstore')"
+        return x
+    names = sorted(set(nm(x) for x in rules))
     return "+".join(names[:4]) or "norule"
+
+
+def why_infeasible_without_rules(S, seg, b0, bs):
+    """root-cause signature of an infeasible pair of bounds when no rule fired, from the original segment"""
+    if seg is None:
+        return "norule"
+    ids = brute.original_to_ids(S, seg)
+    if ids is None:
+        return "original-not-expressible"      # an instruction of the segment is not offered by the specification (dead code dropped, folded)
+    v = seqcheck.check(S, ids)
+    if not v:
+        return "original-not-realizing"
+    if v.length > b0:
+        return "below-original-length"
+    if v.peak > bs:
+        return "below-original-height"
+    return "norule"
+
+
+def which_position_bound(S, ids, lb, ub):
+    """for a realizing sequence shorter than min_length: which published position bound does it contradict?"""
+    if not lb or not ub:
+        return "no-bounds"
+    pos = {}
+    for i, x in enumerate(ids):
+        pos.setdefault(x, []).append(i)
+    deps = S.get("dependencies") or []
+    low = sorted(x for x in lb if x in pos and min(pos[x]) < lb[x])
+    if low:
+        x = low[0]
+        preds = [a for a, b in deps if b == x]
+        return "lower-bound:%s" % ("several-predecessors" if len(preds) >= 2 else "one-predecessor" if preds else "no-predecessor")
+    n = len(ids)
+    b0 = S["init_progr_len"]
+    high = sorted(x for x in ub if x in pos and (b0 - n) + max(pos[x]) > ub[x])
+    if high:
+        x = high[0]
+        out = [u for u in S["user_instrs"] if u["id"] == x]
+        depth = [S["tgt_ws"].index(o) for u in out for o in u.get("outpt_sk", []) if o in S["tgt_ws"]]
+        return "upper-bound:%s" % ("result-in-final-stack" if depth else "result-consumed")
+    return "min_length_instrs" if S.get("min_length_instrs", 0) > n else "other"
 
 
 def check_block(instrs, argv, rng, stats, label, e5_len=6):
@@ -78,9 +134,14 @@ def check_block(instrs, argv, rng, stats, label, e5_len=6):
             if a != b and not ("ASSIGNIMMUTABLE" in a):
                 fail("original-instrs", "mismatch", "original_instrs %s differs from the reported sub-block %s" % (a, b), S)
         # proof-carrying infeasibility
+        try:
+            seg = pipeline.segment_instrs(S, lo)
+        except Exception:
+            seg = None
         lb = brute.length_lower_bound(S)
         if b0 < lb:
-            fail("bounds-infeasible", ("rule-discount" if rules and lb <= S["max_progr_len"] else rule_key(rules)),
+            fail("bounds-infeasible", ("rule-discount" if rules and lb <= S["max_progr_len"] else rule_key(rules) if rules else
+                                       "length-bound:" + why_infeasible_without_rules(S, seg, b0, bs)),
                  "init_progr_len=%d but every realizing sequence contains %d distinct instructions (rules: %s)" % (b0, lb, rule_key(rules)), S,
                  {"rules": rules})
         hb = brute.height_lower_bound(S)
@@ -88,10 +149,6 @@ def check_block(instrs, argv, rng, stats, label, e5_len=6):
             fail("stack-bound-infeasible", "height", "max_sk_sz=%d but source/target stack or an operand list needs %d" % (bs, hb), S)
         witnesses = []
         # witness 1: original segment (only meaningful when no rule rewrote the specification)
-        try:
-            seg = pipeline.segment_instrs(S, lo)
-        except Exception:
-            seg = None
         if seg is not None and not rules:
             ids = brute.original_to_ids(S, seg)
             if ids is not None and seqcheck.check(S, ids):
@@ -126,7 +183,7 @@ def check_block(instrs, argv, rng, stats, label, e5_len=6):
                             r_len, _ = brute.exists_within(S, b0, bs + 4, node_budget=150000)
                             r_hgt, _ = brute.exists_within(S, b0 + 4, bs, node_budget=150000)
                             which = "stack-bound" if r_len == "yes" else "length-bound" if r_hgt == "yes" else "both-bounds"
-                            cul = which + (":norule" if not rules else ":with-rules")
+                            cul = which + ":" + (why_infeasible_without_rules(S, seg, b0, bs) if not rules else rule_key(rules))
                         fail("bounds-infeasible", cul, "no realizing sequence with length<=%d and height<=%d exists (exhaustive search) "
                              "although %s realizes the specification (rules: %s)" % (b0, bs, seq2, rule_key(rules)), S, {"rules": rules})
                     else:
@@ -140,7 +197,10 @@ def check_block(instrs, argv, rng, stats, label, e5_len=6):
                 stats.inconclusive += 1
         for wname, ids, v in witnesses:
             if mn > v.length:
-                fail("min-length-too-large", wname, "min_length=%d but %s (length %d) realizes the specification" % (mn, ids, v.length), S)
+                fail("min-length-too-large", which_position_bound(S, ids, g.get("lb"), g.get("ub")),
+                     "min_length=%d (instrs %s, bounds %s) but the %s sequence %s (length %d) realizes the specification" % (
+                         mn, S.get("min_length_instrs"), S.get("min_length_bounds"), wname, ids, v.length), S)
+                break
         if rules and len(stats.samples) < 6:
             stats.sample({"segment": S["original_instrs"], "rules": rules, "init_progr_len": b0, "max_progr_len": S["max_progr_len"],
                           "max_sk_sz": bs, "min_length": mn, "witnesses": [(w, v.length, v.peak) for w, _, v in witnesses]})
